@@ -645,7 +645,7 @@ pub fn c20_one(pc: &ProgramCase, seed: u64, n_hist: usize, prebuilt: Option<Resu
     let mut nt = BTreeSet::new();
     for (hi, (s, l)) in spans.iter().enumerate() {
         let (_, st) = judge.judge(&cmds[*s..*s + *l], &resps[*s..*s + *l], *s);
-        if (st.merges > 0 || st.equates_distinct > 0) && st.created > 0 {
+        if (st.merges > 0 || st.equates_distinct > 0) && (st.created > 0 || st.tuples_added > 0) {
             nt.insert(util::hash64(&[pc.source.as_bytes(), hist::script(&cmds[*s..*s + *l]).as_bytes()]));
         }
         let _ = hi;
@@ -685,7 +685,7 @@ pub fn run_c20(tier: &str, seed: u64) -> campaign::CampaignResult {
     }
     ev.extra.insert("programs".into(), json!(ev.counters.get("programs_run").copied().unwrap_or(0)));
     ev.extra.insert("executions_per_history".into(), json!(3));
-    ev.rule = "generated programs x generated API histories; every script is executed by three fresh driver processes (ASLR on; different environment size, allocator settings, RUST_MIN_STACK) and the complete transcripts (returned ids, query answers, iterator output and private index dumps after every call) must be byte-identical; evaluations = histories; non-trivial = history with >= 1 merge and >= 1 derived element; distinct by hash(program, script)".into();
+    ev.rule = "generated programs x generated API histories; every script is executed by three fresh driver processes (ASLR on; different environment size, allocator settings, RUST_MIN_STACK) and the complete transcripts (returned ids, query answers, iterator output and private index dumps after every call) must be byte-identical; evaluations = histories; non-trivial = history with >= 1 merge of distinct classes and >= 1 derived tuple or element; distinct by hash(program, script)".into();
     ev.assumptions = vec!["nondeterminism that does not show within three executions is not detected".into()];
     ev.violations = violations as u64;
     ev.wall_s = start.elapsed().as_secs_f64();
